@@ -89,6 +89,103 @@ def aff_of_ir(e, emit_var=None):
     return None
 
 
+import math
+
+
+def _gcd_all(xs):
+    g = 0
+    for x in xs:
+        x = Fraction(x)
+        g = math.gcd(g, abs(x.numerator)) if x.denominator == 1 else 1
+    return g
+
+
+def tighten(a):
+    """a >= 0 over the integers with integer coefficients: divide by the gcd of the coefficients, floor the constant"""
+    if not a.c:
+        return a
+    den = 1
+    for x in list(a.c.values()) + [a.k]:
+        den = den * x.denominator // math.gcd(den, x.denominator)
+    a = a.scale(den)
+    g = _gcd_all(a.c.values())
+    if g > 1:
+        a = Aff({v: x / g for v, x in a.c.items()}, Fraction(math.floor(a.k / g)))
+    return a
+
+
+def _int_row(a, vs):
+    """Aff -> (integer coefficient tuple over vs, integer constant), scaled by the lcm of the denominators"""
+    den = 1
+    for x in a.c.values():
+        den = den * x.denominator // math.gcd(den, x.denominator)
+    den = den * a.k.denominator // math.gcd(den, a.k.denominator)
+    return [int(a.c.get(v, 0) * den) for v in vs], int(a.k * den)
+
+
+def _tight(row, k):
+    g = 0
+    for x in row:
+        g = math.gcd(g, abs(x))
+    if g > 1:
+        return [x // g for x in row], k // g        # floor division: integer tightening of  row.x + k >= 0
+    return row, k
+
+
+def feasible(cons):
+    """is the conjunction of (Aff, 'ge' | 'eq') satisfiable over the integers?  Equalities are eliminated, inequalities by Fourier-Motzkin
+    with integer tightening on integer vectors; `False` is always right, `True` may be a rational-only solution (callers only ever *prune* or
+    *prove* on False)"""
+    eqs = [a for a, k in cons if k == "eq"]
+    ges = [a for a, k in cons if k == "ge"]
+    while eqs:
+        e = eqs.pop()
+        if not e.c:
+            if e.k != 0:
+                return False
+            continue
+        v = sorted(e.c)[0]
+        rest = Aff({w: x for w, x in e.c.items() if w != v}, e.k).scale(-1 / e.c[v])      # v = rest
+        eqs = [q.subs(v, rest) for q in eqs]
+        ges = [q.subs(v, rest) for q in ges]
+    vs = sorted({v for g in ges for v in g.c})
+    rows = []
+    for g in ges:
+        r, k = _int_row(g, vs)
+        r, k = _tight(r, k)
+        if any(r):
+            rows.append((tuple(r), k))
+        elif k < 0:
+            return False
+    rows = list(set(rows))
+    for i in range(len(vs)):
+        pos = [(r, k) for r, k in rows if r[i] > 0]
+        neg = [(r, k) for r, k in rows if r[i] < 0]
+        new = [(r, k) for r, k in rows if r[i] == 0]
+        for rp, kp in pos:
+            for rn, kn in neg:
+                a, b = -rn[i], rp[i]
+                r = [a * x + b * y for x, y in zip(rp, rn)]
+                kk = a * kp + b * kn
+                r, kk = _tight(r, kk)
+                if any(r):
+                    new.append((tuple(r), kk))
+                elif kk < 0:
+                    return False
+        rows = list(set(new))
+        if len(rows) > 600:
+            return True
+    return all(k >= 0 for r, k in rows)
+
+
+def implied_eqs_of(cons):
+    out = []
+    for a, k in cons:
+        if k == "ge" and a.c and not feasible(cons + [(a - 1, "ge")]):
+            out.append(a)
+    return out
+
+
 class State:
     templates = []        # the finite set of inequality templates (Affs) the analysis may track; set by Analysis
 
@@ -738,3 +835,269 @@ class CounterAnalysis(Analysis):
         for stt in (t, f):
             stt._check_feasible()
         return t, f
+
+
+# ---------------------------------------------------------------------------
+class FState(State):
+    """State whose inequality proofs are done by Fourier-Motzkin refutation (complete for linear consequence, integer tightening)"""
+
+    def copy(self):
+        return FState(list(self.eqs), dict(self.lb), self.bottom, list(self.ineqs))
+
+    def facts(self):
+        return [(q, "eq") for q in self.eqs] + [(V(v) - b, "ge") for v, b in sorted(self.lb.items())] + [(f, "ge") for f in self.ineqs]
+
+    def reduce(self, e):
+        for q in self.eqs:
+            p = sorted(q.c)[0]
+            if p in e.c:
+                e = e - q.scale(e.c[p] / q.c[p])
+        return e
+
+    def prove_nonneg(self, e, slacks=()):
+        if self.bottom:
+            return True
+        e = self.reduce(e)
+        if not e.c:
+            return e.k >= 0
+        facts = self._reduced_facts() + [(f, "ge") for f in (self.reduce(f) for f in slacks) if f.c]
+        for f, _ in facts:                  # already known (possibly with slack): the common case
+            if f.c == e.c and e.k >= f.k:
+                return True
+        # only facts connected to e through shared variables matter
+        vs = set(e.c)
+        keep = []
+        rest = list(facts)
+        changed = True
+        while changed:
+            changed = False
+            for f in list(rest):
+                if set(f[0].c) & vs:
+                    keep.append(f)
+                    rest.remove(f)
+                    vs |= set(f[0].c)
+                    changed = True
+        return not feasible(keep + [(-e - 1, "ge")])
+
+    _cache = None
+
+    def _reduced_facts(self):
+        """the inequality facts modulo the equalities; cached while the state is not touched (the cache keeps the very objects it was
+        computed from, so identity comparison is safe)"""
+        c = self._cache
+        lbs = sorted(self.lb.items())
+        if c is not None and len(c[0]) == len(self.eqs) and len(c[1]) == len(self.ineqs) and c[2] == lbs \
+                and all(x is y for x, y in zip(c[0], self.eqs)) and all(x is y for x, y in zip(c[1], self.ineqs)):
+            return list(c[3])
+        out = [(self.reduce(V(v) - b), "ge") for v, b in lbs] + [(self.reduce(f), "ge") for f in self.ineqs]
+        out = [(f, k) for f, k in out if f.c]
+        self._cache = (list(self.eqs), list(self.ineqs), lbs, out)
+        return list(out)
+
+    def infeasible(self):
+        return self.bottom or not feasible(self.facts())
+
+    def _check_feasible(self):
+        if not self.bottom and not feasible(self.facts()):
+            self.bottom = True
+
+    def join(self, o):
+        r = State.join(self, o)
+        return FState(r.eqs, r.lb, r.bottom, r.ineqs)
+
+
+class GraphAnalysis:
+    """Karr's affine equalities + lower bounds + template inequalities on a graph of cut points.
+
+    edges: dicts  src, dst, guard = [('ge' | 'eq' | 'ne', Aff), ...] (data-dependent tests are simply absent: both outcomes possible),
+                  pset = {var: Aff | None} (simultaneous; None = not affine), acc = [(array, index Aff, 'r' | 'w')],
+                  outs = {output array: [(flat index Aff, value)]}, nfull = number of rows with count 1 written, label
+    A loop head is analysed separately for its first entry and for its back edges (`parent` gives the loop nesting), which is what the
+    exit facts need (the stack is not empty after the first pass of the loop).
+    Ghost counters: `#rows:<array>` rows written so far per output array, `#full` rows of count 1."""
+
+    def __init__(self, nodes, edges, start, parent, arrays, outs, int_vars, init, count_col=None, lower=None):
+        self.nodes = nodes
+        self.count_col = count_col or {}
+        self.edges = edges
+        self.start = start
+        self.parent = parent          # loop head -> enclosing loop head | None
+        self.arrays = arrays          # array -> length Aff
+        self.outs = outs              # output array -> (rows Aff, cols)
+        self.obl = []
+        tm = {}
+        for n in {repr(x): x for x in arrays.values()}.values():
+            for v in int_vars:
+                for t in (n - V(v) - 1, n - V(v)):      # v is an index (v <= n - 1) or a size (v <= n)
+                    tm[repr(t)] = t
+        for e in edges:
+            for k, a in e["guard"]:
+                if k == "ge" and a.c:
+                    for t in (a, a + 1, -a - 1):
+                        tm[repr(t)] = t
+        State.templates = list(tm.values())
+        self.state = {}
+        st = FState()
+        for v, a in init.items():
+            st.assign(v, a)
+        for b in outs:
+            st.assign(f"#rows:{b}", Aff({}, 0))
+        st.assign("#full", Aff({}, 0))
+        for v, b in (lower or {}).items():
+            st.lb[v] = b
+        self.init = st
+
+    def is_back(self, src, dst):
+        n = src
+        while n is not None:
+            if n == dst:
+                return True
+            n = self.parent.get(n)
+        return False
+
+    def variant(self, e):
+        return (e["dst"], "b" if e["dst"] in self.parent and self.is_back(e["src"], e["dst"]) else "e")
+
+    def guard(self, st, g):
+        st = st.copy()
+        for k, a in g:
+            if st.bottom:
+                break
+            if k == "eq":
+                st.add_eq(a)
+            elif k == "ge":
+                if len(a.c) == 1:
+                    (v, x), = a.c.items()
+                    if x > 0:
+                        b = math.ceil(-a.k / x)
+                        st.lb[v] = max(st.lb.get(v, b), b)
+                st.add_ineq(a)
+            elif k == "ne":
+                if len(a.c) == 1:
+                    (v, x), = a.c.items()
+                    val = -a.k / x
+                    if val.denominator == 1 and st.lb.get(v) == val:
+                        st.lb[v] = int(val) + 1
+        if not st.bottom:
+            st._check_feasible()
+        if not st.bottom:
+            # facts squeezed to equality by the guard
+            for k, a in g:
+                if k == "ge" and a.c and st.prove_nonneg(-a):
+                    st.add_eq(a)
+        return st
+
+    def rows_written(self, e, st, record):
+        """per output array: number of complete rows this edge writes, and the number of rows with count 1; obligations: the stores fill
+        rows #rows .. #rows+m-1 exactly, the count column holds 0.5 or 1"""
+        m = {}
+        nfull = 0
+        for b, stores in e["outs"].items():
+            rows, cols = self.outs[b]
+            ks = []
+            ok = True
+            for flat, val in stores:
+                d = st.reduce(flat - V(f"#rows:{b}").scale(cols))
+                if d.c or d.k.denominator != 1:
+                    ok = False
+                    if record:
+                        self.obl.append((f"{e['label']}: store {b}[{flat}] is at a fixed place relative to the rows already written", False, repr(st)))
+                else:
+                    ks.append((int(d.k), val))
+            offs = sorted(k for k, _ in ks)
+            n = len(ks) // cols if cols else 0
+            full = ok and offs == list(range(n * cols)) and len(ks) == n * cols
+            if record and ok:
+                self.obl.append((f"{e['label']}: the {len(ks)} stores into {b} fill rows #rows .. #rows+{n - 1} completely, each cell once "
+                                 f"(offsets {offs})", full, repr(st)))
+            if record and full and n:
+                self.obl.append((f"{e['label']}: rows #rows .. #rows+{n - 1} of {b} are below its capacity {rows}",
+                                 st.prove_nonneg(rows - V(f"#rows:{b}") - n), repr(st)))
+            if full and b in self.count_col:
+                for k, val in ks:
+                    if k % cols == self.count_col[b]:
+                        good = val in (("num", Fraction(1)), ("num", Fraction(1, 2)))
+                        if record:
+                            self.obl.append((f"{e['label']}: the count stored with a row of {b} is 0.5 or 1", good, str(val)))
+                        if val == ("num", Fraction(1)):
+                            nfull += 1
+            m[b] = n if full else 0
+        return m, nfull
+
+    def post(self, e, st, record=False):
+        m, nfull = self.rows_written(e, st, record)
+        if record:
+            for arr, ix, rw in e["acc"]:
+                if arr in self.arrays:
+                    what = "read" if rw == "r" else "write"
+                    self.obl.append((f"{e['label']}: {what} {arr}[{ix}]: 0 <= {ix}", st.prove_nonneg(ix), repr(st)))
+                    self.obl.append((f"{e['label']}: {what} {arr}[{ix}]: {ix} <= {self.arrays[arr] - 1}", st.prove_nonneg(self.arrays[arr] - ix - 1), repr(st)))
+        st = st.copy()
+        tmp = []
+        for i, (v, a) in enumerate(sorted(e["pset"].items())):
+            if a is not None and set(a.c) == {v} and a.c[v] == 1 and a.k == 0:
+                continue
+            t = f"__p{i}"
+            st.assign(t, a)
+            tmp.append((v, t))
+        for v, t in tmp:
+            st.assign(v, V(t))
+        for _, t in tmp:
+            st.forget(t)
+        for b, n in m.items():
+            if n:
+                st.assign(f"#rows:{b}", V(f"#rows:{b}") + n)
+        if nfull:
+            st.assign("#full", V("#full") + nfull)
+        for t in State.templates:
+            if not any(repr(t) == repr(g) for g in st.ineqs) and st.prove_nonneg(t):
+                st.ineqs.append(t)
+        return st
+
+    def run(self):
+        self.state = {(self.start, "e"): self.init}
+        rounds = {}
+        for it in range(80):
+            changed = False
+            for e in self.edges:
+                for var in ("e", "b"):
+                    s0 = self.state.get((e["src"], var))
+                    if s0 is None or s0.bottom:
+                        continue
+                    st = self.guard(s0, e["guard"])
+                    if st.bottom:
+                        continue
+                    out = self.post(e, st)
+                    key = self.variant(e)
+                    old = self.state.get(key)
+                    if old is None:
+                        self.state[key] = out
+                        changed = True
+                        continue
+                    new = old.join(out)
+                    r = rounds.get(key, 0)
+                    if r >= 3:
+                        for v in list(new.lb):
+                            if v in old.lb and new.lb[v] < old.lb[v]:
+                                del new.lb[v]
+                    if not (new.leq(old) and old.leq(new)):
+                        self.state[key] = new
+                        rounds[key] = r + 1
+                        changed = True
+            if not changed:
+                break
+        else:
+            raise Unsupported("the invariants of the counter program did not stabilise")
+        # recording pass
+        self.at = {}
+        for i, e in enumerate(self.edges):
+            for var in ("e", "b"):
+                s0 = self.state.get((e["src"], var))
+                if s0 is None or s0.bottom:
+                    continue
+                st = self.guard(s0, e["guard"])
+                if st.bottom:
+                    continue
+                out = self.post(e, st, record=True)
+                self.at.setdefault(i, []).append((var, st, out))
+        return self
